@@ -18,7 +18,7 @@ P = {
          "For every cut point of the exchange (blackout of either/both directions at every emission index) x mode x closure x NAK procedure, every transaction task must end within the bound B after the last PDU delivered to it, no loop may spin at one virtual instant, and the daemons must afterwards serve a fresh transfer and a Report. Enumerated cut points are complete for the reference exchanges; configurations are a grid; user cancels, heavy random loss, Prompt requests at random points (including while the receiver waits for the ACK of Finished) and sequences of 1-4 user primitives (Cancel/Suspend/Resume/Prompt/Report) at either entity from every point of the exchange are sampled, as are late copies of every PDU kind delivered to either entity after its Fault/Finished/Abandon indication in every end state (with per-condition handlers); a transaction is exempt from the bound only while the user holds it suspended or after a fault whose configured handler is ignore/suspend was actually declared.",
          "Timeouts >= 1 s (zero-second timers are not a meaningful configuration). The bound B is generous by design; a hang never ends and is caught by the 3*B observation window.", "DESIGN.md §5 C03"),
  "C04": ("fault_enumeration", "sim", "runtime monitor over enumerated re-deliveries of every previously sent PDU (singles and pairs) into the window between the receiver's success indication and its end",
-         "After the receiver's first success indication, each previously emitted PDU (and each pair) is delivered again while ACK(Finished) is withheld; the oracle checks the destination bytes, a non-idempotent append marker (requests executed exactly once), absence of integrity faults, and that sender success implies an earlier receiver success. Exhaustive for files of <= 3 segments, in acknowledged mode and in unacknowledged mode with closure; a second enumerated family loses every ACK(Finished) (optionally every Finished PDU) so that the receiver runs through its positive-ACK limit into the cancelled state, and re-delivers every first-pass PDU after that fault. The window stays open when the receiving task vanished without ACK(Finished), a declared fault or a user cancel.",
+         "After the receiver's first success indication, each previously emitted PDU (and each pair) is delivered again while ACK(Finished) is withheld; the oracle checks the destination bytes, a non-idempotent append marker (requests executed exactly once), absence of integrity faults, and that sender success implies an earlier receiver success. Exhaustive for files of <= 3 segments, in acknowledged mode and in unacknowledged mode with closure; a second enumerated family loses every ACK(Finished) (optionally every Finished PDU) so that the receiver runs through its positive-ACK limit into the cancelled state, and re-delivers every first-pass PDU after that fault; a third family configures the receiver to ignore a checksum failure, corrupts one byte without CRC, loses the first Finished PDU and re-delivers a first-pass PDU (the sender must not report a success the receiver never reported). The window stays open when the receiving task vanished without ACK(Finished), a declared fault or a user cancel.",
          "Only the still-open transaction is in scope (as the property says). Trusts the simulator.", "DESIGN.md §5 C04"),
  "C05": ("exploration", "pure", "differential monitor: decode(encode(x)) == x and encoded_len == bytes produced, over generated values with the discrete fields enumerated",
          "Millions of generated well-formed values of every public codec type, discrete fields (flags, id widths 1/2/4/8, conditions, directives, statuses) enumerated completely, the rest random with boundary values; each is encoded, decoded and compared, and announced lengths are compared with produced lengths. Coverage cells per type must be non-empty.",
@@ -27,7 +27,7 @@ P = {
          "Random, prefix-enumerated, truncated and single-byte-mutated inputs are fed to every public decoder; a panic, an allocation above the bound, or a non-canonical accept is a violation. Both arithmetic profiles are exercised; the thorough tier repeats a sample under Miri.",
          "Allocation bound: largest single request <= 128 KiB, peak <= 512 KiB per decode call. Inputs are sampled, not all byte strings.", "DESIGN.md §5 C06"),
  "C07": ("exploration", "sim", "runtime monitor at the sender's transport boundary: every emitted PDU compared byte-for-byte with the source file, tiling/allowance/obligation oracles; scripted (non-conforming) receiver",
-         "Every PDU a real sending daemon hands to the link is checked against the source file on disk (bytes at offset, length caps, in-order first-pass tiling, retransmissions only for requested bytes and every requested in-file byte answered, true metadata/EOF, header identifiers and length). NAK shapes (overlapping, unsorted, empty, beyond EOF, long) are injected before/during/after the first pass by a scripted receiver; in a quarter of the runs the sending user suspends and resumes in the middle of the first pass.",
+         "Every PDU a real sending daemon hands to the link is checked against the source file on disk (bytes at offset, length caps, in-order first-pass tiling, retransmissions only for requested bytes and every requested in-file byte answered, true metadata/EOF, header identifiers and length). NAK shapes (overlapping, unsorted, empty, beyond EOF, long) are injected before/during/after the first pass by a scripted receiver; in a quarter of the runs the sending user suspends and resumes in the middle of the first pass; sparse sources of 2^32-2 .. 2^33 bytes check the size fields and the large-file flag of every PDU.",
          "NAK ranges beyond EOF are bounded to a few segments past the end. Trusts the simulator.", "DESIGN.md §5 C07"),
  "C08": ("exploration", "sim", "runtime monitor at the receiver's transport boundary with a scripted sender: every NAK compared with the harness's exact knowledge of delivered bytes; all loss subsets enumerated for small files",
          "The harness plays the sender and knows exactly what it delivered; every NAK PDU emitted by the real receiver is checked for well-formedness, scope, size limit, and (after EOF) exact coverage of the missing bytes per round; deferred/immediate timing rules are checked on virtual timestamps. All subsets of lost segments/metadata for files of up to 6 segments are enumerated; late duplicates after the end re-create the receive transaction, which is judged for the deferred-procedure rule under a default configuration that differs from the peer's; in part of the runs the receiving user suspends and resumes the transaction between the first two deliveries (resuming is no reason to send a NAK under the deferred procedure).",
@@ -36,7 +36,7 @@ P = {
          "All sequences of up to 4 segments over 12 positions and up to 3 over 16 are enumerated; after every merge the returned count, the running total, is_complete for every n and gaps for every window are compared with the set-union model; random walks cover offsets up to 2^64-1.",
          "Uses the cfg-guarded re-export of the crate-private Segments type (hook H2).", "DESIGN.md §5 C09"),
  "C10": ("fault_enumeration", "sim", "runtime monitor: Cancel injected before/after every emission and delivery index, combined with single losses of the handshake PDUs and peer blackout; termination, cancel condition and destination-file rules",
-         "Cancel at sender or receiver at every index of the reference exchanges x modes x closure x single handshake losses x blackout; the oracle checks termination of the cancelling entity within its limits, termination and cancel condition at a reachable peer, that the destination name never exposes partial content, and that nothing is delivered after the receiver has reported the transaction cancelled (one recorded finding, three symptoms: the daemon re-creates a cancelled transaction from late PDUs); also cancels of suspended transactions, cancel followed by suspend/resume with a silent peer, and cancels issued late in a transaction's life (after a suspension longer than limit x ACK timeout) with the first handshake PDU lost.",
+         "Cancel at sender or receiver at every index of the reference exchanges x modes x closure x single handshake losses x blackout; the oracle checks termination of the cancelling entity within its limits, termination and cancel condition at a reachable peer, that the destination name never exposes partial content, and that nothing is delivered after the receiver has reported the transaction cancelled (one recorded finding, three symptoms: the daemon re-creates a cancelled transaction from late PDUs); also cancels of suspended transactions, cancel followed by suspend/resume with a silent peer, and cancels issued late in a transaction's life (after a suspension longer than limit x ACK timeout) with the first handshake PDU lost, cancels after an earlier fault that was configured to be ignored, and cancels at an entity whose transport stops taking PDUs (back-pressure).",
          "A cancel may legitimately lose the race against completion; the cancel-condition rule applies only to runs where the receiver never reported success.", "DESIGN.md §5 C10"),
  "C11": ("exploration", "sim", "runtime monitor over multi-daemon executions with many overlapping transactions, stray/replayed/hostile PDUs: per-transaction outcome, tagged content, id distinctness, daemon liveness probe",
          "2-3 real daemons with up to tens of overlapping transfers in both directions and mixed modes under random loss, with injected stray PDUs and raw bytes, sequence numbers starting just below the wrap of their width, and a default configuration that differs from the per-entity one (a receive transaction started by a stray must show its source entity's timing) (virtual-time simulator), plus a real-time lane on a multi-thread runtime with a slow receiving filestore (back-pressure under real parallelism; runs during which the machine stalled are repeated, not judged); each transaction must deliver its own tagged content and report its own outcome, Put ids - also those of fire-and-forget Puts, as announced in Transaction indications - must be distinct, a sending entity reports nothing more for a transfer after its success report (response PDUs are re-delivered to senders whose transaction has just ended), and every daemon must still serve a fresh Put and Report at the end.",
